@@ -105,6 +105,8 @@ pub fn explore(ctx: &Ctx, shard: usize, n: usize) -> Report {
         let sp = Spelling { arrow: r.below(3) as u8, dslash: r.chance(1, 2), empty_set: r.chance(1, 2), ellipsis: r.below(3) as u8, ascii_angle: r.chance(1, 2), matrix_spaces: r.chance(1, 3), greek: r.chance(1, 2), feat_variant: r.next() as u32, comment: if r.chance(1, 3) { Some("a comment > / | _".to_string()) } else { None }, var_shift: r.below(3) as u8 * 3, alpha_shift: r.below(4) as u8 };
         let (a, mut b) = (plain(&ast), sp.rule(&ast));
         if r.chance(1, 4) { b = b.replace('\u{0361}', "\u{035C}") }   // under-tie for over-tie
+        if r.chance(1, 6) { b = b.replace(" _ ", if r.chance(1, 2) { " __ " } else { " ___ " }) }   // "the underline may be as long as you like"
+        if r.chance(1, 6) && !b.contains("//") { b = b.replace(" / ", "/").replace(" | ", "|") }       // no spaces around the environment separators
         let ws: Vec<String> = (0..4).map(|_| rand_word(r, &WordCfg::default())).collect();
         if a == b { return }
         if rep.samples.len() < 5 { let (a2, b2) = (a.clone(), b.clone()); rep.sample(|| json!({"plain": a2, "respelled": b2})); }
